@@ -1,6 +1,6 @@
 (* Properties/C04.v — derived Hash is a function of the value that respects Equal.
    Statements only; proofs in Go/HashProofs.v. *)
-From Verif Require Import Go.Ty Go.Val Go.Equal Go.Compare Go.Hash Go.HashProofs Go.Invariance Go.HashTotal.
+From Verif Require Import Go.Ty Go.Val Go.Equal Go.Compare Go.Hash Go.HashProofs Go.Invariance Go.HashTotal Go.HashPrivKeys.
 From Coq Require Import Permutation.
 
 (* For every type and all well-typed values: structurally equal values (a value and its clone,
@@ -67,3 +67,22 @@ Theorem C04_hash_zero_sign : forall k (n1 n2 : bool),
   (k = KF32 \/ k = KF64) -> hashm [] (TB k) (VF n1 0) = hashm [] (TB k) (VF n2 0).
 Proof. exact hash_zero_sign. Qed.
 Print Assumptions C04_hash_zero_sign.
+
+(* Keys that hash alike: plugin/hash leaves the unexported fields of an imported struct out, so the keys
+   k0, k1, k2 of map[ext.E4]string (E4 = struct{ f0 int; f1 string }) all hash to 17.  Every insertion
+   order of the same entries gives one hash (instances of C04_hash_ignores_map_order) ... *)
+Theorem C04_hash_tied_keys_any_insertion_order :
+  hash_model ME4 (VMap 1 [(k0, va); (k1, vb); (k2, vc)]) = hash_model ME4 (VMap 2 [(k2, vc); (k1, vb); (k0, va)])
+  /\ hash_model ME4 (VMap 1 [(k0, va); (k1, vb); (k2, vc)]) = hash_model ME4 (VMap 3 [(k1, vb); (k2, vc); (k0, va)])
+  /\ exists n, hash_model ME4 (VMap 1 [(k0, va); (k1, vb); (k2, vc)]) = Ok n.
+Proof. exact priv_keys_orders. Qed.
+Print Assumptions C04_hash_tied_keys_any_insertion_order.
+
+(* ... although which key holds which value is part of the hash: the keys are told apart by derived
+   Compare (which reads the unexported fields), not by their hashes. *)
+Theorem C04_hash_tied_keys_are_ordered_by_compare :
+  hash_model ME4 (VMap 1 [(k0, va); (k1, vb)]) <> hash_model ME4 (VMap 1 [(k0, vb); (k1, va)])
+  /\ has_type [] ME4 (VMap 1 [(k0, va); (k1, vb)]) = true
+  /\ Compare.cmpm [] E4 k0 k1 = Ok (-1)%Z /\ Compare.cmpm [] E4 k1 k0 = Ok 1%Z.
+Proof. exact priv_keys_order_matters. Qed.
+Print Assumptions C04_hash_tied_keys_are_ordered_by_compare.
